@@ -24,6 +24,7 @@ var targetFile = map[string]string{
 	"NewWrappedSystemError": "GenErrors",
 	"GetSystemErrorMessage": "GenErrors",
 	"isEphemeralHostPort":   "GenHandshake",
+	"mexCheckFrame":      "GenMex",
 }
 
 // varFields: constant fields of package-level composite-literal variables.
@@ -127,4 +128,9 @@ var targets = []Target{
 	// peer.go: which announced host:port values count as ephemeral (C13)
 	{Func: "isEphemeralHostPort", Out: "isEphemeralHostPort", Params: "(hostPort : list Z) (has_suffix_colon0 : bool)", Ret: "bool",
 		Hints: map[string]string{"strings.HasSuffix(hostPort, \":0\")": "has_suffix_colon0"}},
+	// mex.go (C04): the id check recvPeerFrame applies to every frame it takes off recvCh
+	// result: 0 = nil, 4 = errUnexpectedFrameType
+	{Func: "messageExchange.checkFrame", Out: "mexCheckFrame", Params: "(fid : Z) (mid : Z)", Ret: "Z",
+		Hints:  map[string]string{"frame.Header.ID": "fid", "mex.msgID": "mid", "errUnexpectedFrameType": "4", "nil": "0"},
+		SHints: map[string]string{"mex.mexset.log.WithFields(...": ""}},
 }
